@@ -15,6 +15,6 @@ JFam(f) == [name |-> f.name, help |-> f.help, types |-> SetToSeq(f.types),
             samples |-> [j \in DOMAIN f.samples |-> [labels |-> f.samples[j].labels, common |-> f.samples[j].common, v |-> f.samples[j].v, type |-> f.samples[j].type]]]
 Emit == PrintT(<<"CASE", ToJson([sel |-> SetToSeq(sel), prefix |-> prefix, common |-> LabelSeq(common), g |-> [i \in DOMAIN G |-> JFam(G[i])]])>>)
 Ordered == StrictlyIncreasing(G)
-AllThere == Complete(Reg, G)
+AllThere == Complete(Reg, prefix, G)
 Valid == NamesValid(G)
 =============================================================================
